@@ -38,6 +38,10 @@ func IsBaseTypeExpression(c ast.Constant) bool {
 		return true
 	case ast.BytesBound:
 		return true
+	case ast.TimeBound:
+		return true
+	case ast.DurationBound:
+		return true
 	default:
 		return false
 	}
